@@ -9,6 +9,10 @@ import GPy.C14.Proofs
 import GPy.C14.Ops
 import GPy.C14.Cmp
 import GPy.C14.GetItem
+import GPy.C14.Window
+import GPy.C14.Ascii
+import GPy.C14.Units
+import GPy.C14.SpecMethods
 namespace GPy.C14
 open Spec (Scalar)
 
@@ -448,5 +452,101 @@ example : readString [98, 39, 92, 120, 101, 57, 39, 10] = .ok (.bytes [0xE9]) [1
 /-- non-vacuity of `bytes_literal_ascii_only` at `Rb'aé'` -/
 example : stringPrefix [82, 98, 39, 97, 0xE9, 39] = some (true, true, 39 :: [97, 0xE9, 39]) ∧
     [39, 39].isPrefixOf [97, 0xE9, 39] = false ∧ scan 39 [97, 0xE9, 39] false [] = some (some ([97, 0xE9], [])) := by decide
+
+/-! ### third round: windows are measured in code points; ascii(); units of py/string.go; missing methods -/
+
+/-- **window_fit_by_codepoints**: the early-exit and length tests on the path
+`s.len()` → `indexArg` → `adjustIndices` → `beg > end` → `String.slice(beg, end, size)` compare code-point counts
+only: two strings with the same NUMBER OF CODE POINTS – whatever their UTF-8 byte lengths – take the same early exit
+for every start/end argument (absent, None, any int incl. beyond int64), and otherwise their windows begin at the same
+code-point index and hold the same number of code points; the window is never a Go slice panic. -/
+theorem window_fit_by_codepoints (cs cs' : List Nat) (hs : ∀ c ∈ cs, Scalar c) (hs' : ∀ c ∈ cs', Scalar c)
+    (hl : cs.length = cs'.length) (a b : Arg) (hlen : (cs.length : Int) < IntMax) :
+    (window (encodeAll cs) a b = none ↔ window (encodeAll cs') a b = none) ∧
+    (∀ beg w beg' w', window (encodeAll cs) a b = some (beg, some w) →
+      window (encodeAll cs') a b = some (beg', some w') → beg = beg' ∧ strLen w = strLen w') ∧
+    (∀ beg, window (encodeAll cs) a b ≠ some (beg, none)) :=
+  window_fit_by_codepoints_aux cs cs' hs hs' hl a b hlen
+
+-- same number of code points (2), 2 bytes against 7 bytes
+example : ([0x61, 0x62] : List Nat).length = ([0x20AC, 0x1F600] : List Nat).length ∧
+    (encodeAll [0x61, 0x62]).length = 2 ∧ (encodeAll [0x20AC, 0x1F600]).length = 7 := by decide
+
+/-- the window of the model in terms of the code-point bounds CPython's ADJUST_INDICES gives: early exit iff
+`start > end`; otherwise the window starts at code point `start` and is the encoding of exactly `end - start` code points -/
+theorem window_codepoints (cs : List Nat) (hs : ∀ c ∈ cs, Scalar c) (a b : Arg) (hlen : (cs.length : Int) < IntMax) :
+    (window (encodeAll cs) a b = none ↔ (specWin cs a b).1 > (specWin cs a b).2) ∧
+    (∀ beg w, window (encodeAll cs) a b = some (beg, w) →
+      beg = (specWin cs a b).1 ∧ ∃ wc : List Nat, w = some (encodeAll wc) ∧ (∀ c ∈ wc, Scalar c) ∧
+        (wc.length : Int) = (specWin cs a b).2 - (specWin cs a b).1 ∧
+        wc = (cs.drop (specWin cs a b).1.toNat).take ((specWin cs a b).2 - (specWin cs a b).1).toNat) :=
+  window_cases cs hs a b hlen
+
+/-- **window_fit_needle**: whether a candidate fits the window `[start:end]` is decided by CODE-POINT counts: a
+candidate with more code points than the window never matches as prefix or suffix (even when it has fewer bytes than
+the window), and a candidate with exactly `end - start` code points matches iff it IS the window (even when it has
+more bytes than the window has code points – the situation a `len(sub) > end-beg` test gets wrong) -/
+theorem window_fit_needle (cs sub : List Nat) (hs : ∀ c ∈ cs, Scalar c) (hsub : ∀ c ∈ sub, Scalar c)
+    (a b : Arg) (hlen : (cs.length : Int) < IntMax) (beg : Int) (w : Bytes)
+    (hw : window (encodeAll cs) a b = some (beg, some w)) :
+    ((sub.length : Int) > (specWin cs a b).2 - (specWin cs a b).1 →
+        hasPrefix w (encodeAll sub) = false ∧ hasSuffix w (encodeAll sub) = false) ∧
+    ((sub.length : Int) = (specWin cs a b).2 - (specWin cs a b).1 →
+        (hasPrefix w (encodeAll sub) = true ↔ w = encodeAll sub) ∧
+        (hasSuffix w (encodeAll sub) = true ↔ w = encodeAll sub)) :=
+  window_fit_needle_aux cs sub hs hsub a b hlen beg w hw
+
+-- 'ab£cd'.startswith('£', 2, 3): the window holds 1 code point, the candidate 1 code point = 2 bytes
+example : window (encodeAll [0x61, 0x62, 0xA3, 0x63, 0x64]) (.int 2) (.int 3) = some (2, some (encodeAll [0xA3])) ∧
+    tailMatch false (encodeAll [0x61, 0x62, 0xA3, 0x63, 0x64]) [encodeAll [0xA3]] (.int 2) (.int 3) = .ok (.bool true) ∧
+    (encodeAll [0xA3]).length = 2 := by decide
+
+/-- `ascii(s)` (= `StringEscape(repr(s), true)`) is the repr text under the predicate "nothing is printable" … -/
+theorem ascii_eq_repr_nothing_printable (isPrint : Nat → Bool) (cs : List Nat) :
+    strAscii isPrint cs = escapeRunes (fun _ => false) cs := strAscii_eq isPrint cs
+
+/-- … so it is pure ASCII … -/
+theorem ascii_is_ascii (isPrint : Nat → Bool) (cs : List Nat) : ∀ x ∈ strAscii isPrint cs, x < 0x80 :=
+  asciiRunes_ascii _
+
+/-- … and a literal of `s`: **ascii_roundtrip_str**, for every string of scalar values and every `strconv.IsPrint` -/
+theorem ascii_roundtrip_str (isPrint : Nat → Bool) (cs : List Nat) (hs : ∀ c ∈ cs, Scalar c) (rest : List Nat)
+    (hrest : ∀ r, rest.head? = some r → isQuote r = false) :
+    readString (strAscii isPrint cs ++ rest) = .ok (.str (encodeAll cs)) rest := by
+  rw [strAscii_eq]; exact repr_roundtrip_str (fun _ => false) cs hs rest hrest
+
+example : strAscii (fun _ => true) [0xE9, 39, 0x2028, 0x1F600] =
+    [34, 92, 120, 101, 57, 39, 92, 117, 50, 48, 50, 56, 92, 85, 48, 48, 48, 49, 102, 54, 48, 48, 34] := by decide
+
+/-- REGENERATED TIE (extract/c14units → Generated/Units.lean on every run): the byte/rune unit table of every
+comparison and string slice/index expression of py/string.go is the reviewed one … -/
+theorem units_table_pinned : Generated.facts = Units.expected := Units.units_table_pinned
+
+/-- … **no_mixed_unit_comparison**: no comparison in py/string.go of the working tree has a byte-valued side
+(`len(string)`, strings.Index, range index, pos) against a rune-valued one (`s.len()`, RuneCountInString, indexArg /
+adjustIndices results, character positions), except the two `length == len(s)` ASCII tests (equalities) -/
+theorem no_mixed_unit_comparison :
+    ∀ f ∈ Generated.facts, f.kind = "cmp" → f.sameUnit = true ∨ f ∈ Units.allowedMixed :=
+  Units.no_mixed_unit_comparison
+
+/-- … and a string is sliced / indexed with byte offsets only, except on the ASCII fast paths -/
+theorem string_index_units :
+    ∀ f ∈ Generated.facts, f.kind ≠ "cmp" → Units.boundOk f.fn f.l = true ∧ Units.boundOk f.fn f.r = true :=
+  Units.string_index_units
+
+theorem allowed_mixed_are_equalities : ∀ f ∈ Units.allowedMixed, f.op = "==" ∧ f.kind = "cmp" :=
+  Units.allowedMixed_eq_only
+
+/-- the methods of the property that `str` has in gpython resolve … (partial: rfind, index, rindex, rsplit, partition,
+rpartition, center, ljust, rjust, zfill are excluded – known finding C14-K02) -/
+theorem property_methods_present_partial :
+    ∀ m ∈ propertyMethods, m ∉ ["rfind", "index", "rindex", "rsplit", "partition", "rpartition", "center", "ljust", "rjust", "zfill"] →
+      hasMethod m = true := by decide
+
+/-- … the others are an AttributeError where Python defines a value: `'aa'.rfind('a')` is 1 -/
+theorem missing_methods_witness :
+    (∀ m ∈ ["rfind", "index", "rindex", "rsplit", "partition", "rpartition", "center", "ljust", "rjust", "zfill"],
+      hasMethod m = false) ∧ lookupMethod "rfind" = .error .attr ∧
+    Spec.strRfind [0x61, 0x61] [0x61] .absent .absent = .ok (.int 1) := ⟨by decide, rfl, rfl⟩
 
 end GPy.C14
